@@ -1060,3 +1060,56 @@ pub fn check_c03_concurrent(h: &Hist) -> POut {
     }
     out
 }
+
+// ------------------------------------------------------------------------------------------
+// C09 under concurrency: the validator's verdict and the swap belong to one atomic step
+// ------------------------------------------------------------------------------------------
+
+pub fn check_c09_concurrent(h: &Hist) -> POut {
+    let mut out = POut::new();
+    if !h.built_ok || h.plan.cfg.callback != CallbackMode::Full {
+        return out;
+    }
+    for (oi, o) in h.ops.iter().enumerate() {
+        if !matches!(o.op, Op::Insert { .. } | Op::InsertIfPresent { .. }) || !o.returned() {
+            continue;
+        }
+        let Some(v) = o.val else { continue };
+        // validator consultations and swaps (on_exit on the caller's task) inside this operation
+        let validations: Vec<(Val, bool, u64)> = h
+            .evs
+            .iter()
+            .filter(|e| e.seq > o.inv_seq && e.seq < o.ret_seq.unwrap() && e.task == o.task)
+            .filter_map(|e| match &e.kind {
+                EvKind::Validate { prev, curr, ok } if curr.id == v.id => Some((*prev, *ok, e.seq)),
+                _ => None,
+            })
+            .collect();
+        let swaps: Vec<&CbRec> = h.cbs.iter().filter(|c| c.in_op == Some(oi) && c.kind == CbKind::Exit).collect();
+        if !validations.is_empty() {
+            out.nontrivial = true;
+        }
+        for s in &swaps {
+            let Some(old) = s.val else { continue };
+            match validations.iter().filter(|(_, _, seq)| *seq < s.seq).last() {
+                None => {
+                    if h.plan.cfg.validator != Validator::Always {
+                        out.violations.push(violk("C09", "R-swap-without-validation", s.seq, v.key, "a resident value was replaced without consulting the validator", format!("{:?} replaced {:?} with {:?}", o.op, old, v)));
+                    }
+                }
+                Some((prev, ok, _)) => {
+                    if !*ok {
+                        out.violations.push(violk("C09", "R-veto-ignored", s.seq, v.key, "the validator vetoed the replacement but the resident value was replaced", format!("{:?}: validator vetoed {:?} -> {:?}, yet {:?} was swapped out", o.op, prev, v, old)));
+                    } else if prev.id != old.id {
+                        out.probe("validator_decision_raced_by_another_writer", 1);
+                        out.violations.push(violk("C09", "R-validated-against-another-value", s.seq, v.key, "the value replaced is not the value the validator approved the replacement of", format!("{:?}: validator approved {:?} -> {:?}, but the value swapped out was {:?} (a concurrent writer got in between)", o.op, prev, v, old)));
+                    }
+                }
+            }
+        }
+        if validations.iter().any(|(_, ok, _)| !*ok) {
+            out.probe("veto_under_concurrency", 1);
+        }
+    }
+    out
+}
